@@ -430,7 +430,11 @@ func comps() []comp {
 				fb("continueonerror", "ContinueOnError", true),
 				fi("maxammosize", "MaxAmmoSize", 4096, 4096),
 				fb("preload", "Preload", true),
-				{Key: "headers", Lit: []any{"[A: b]", "[Host: h.example]"}, GoPath: "Headers", Want: []string{"[A: b]", "[Host: h.example]"}, Wrong: []any{"[A: b]", 5, map[string]any{"A": "b"}}},
+				{Key: "headers", Lit: []any{"[A: b]", "[Host: h.example]"}, GoPath: "Headers", Want: []string{"[A: b]", "[Host: h.example]"}, Wrong: []any{"[A: b]", 5, map[string]any{"A": "b"}},
+					// the documented form is "[Name: value]": an item that is not of that form spoils the
+					// list wherever it stands in it
+					Bad: []any{[]any{"no brackets: v"}, []any{"[NoColon]"}, []any{"[: v]"}, []any{""}, []any{"A: b", "[B: c]"}, []any{"[NoColon]", "[B: c]"}, []any{"[: v]", "[B: c]", "[C: d]"},
+						[]any{"", "[B: c]"}, []any{"[A: b]", "oops", "[C: d]"}, []any{"[A: b]", "[B: c]", "[NoColon]"}}},
 				{Key: "chosencases", Lit: []any{"t1", "t2"}, GoPath: "ChosenCases", Want: []string{"t1", "t2"}, Wrong: []any{"t1", 5, map[string]any{"A": "b"}}},
 			}},
 		{Name: "ammo/grpc/json", Section: "ammo", Base: map[string]any{"type": "grpc/json", "file": "/c17/ammo.grpc"},
